@@ -120,6 +120,62 @@ def gen_net(rng, nn):
     names = rng.sample(range(10), nn)
     return x0, W, names
 
+def exact_ok(case):
+    """Generator-side filter (never decides anything): every intermediate of the float64 run is a multiple of 2^-E below
+    2^(50-E), so that numpy's arithmetic is exact.  Edges with dt*w not an integer add bits in every step (Heun: 2p+1)."""
+    dt = Fr(case["dt"]); steps = py_round(Fr(case["T"]) / dt); nn = case["nn"]
+    W = [[Fr(w) for w in r] for r in case["W"]]
+    x = [Fr(v) for v in case["x0"]]
+    def u(i, k):
+        tot = Fr(0)
+        for inp in case["inputs"]:
+            tg = addressed(case, inp)
+            if i in tg and k < len(inp["data"]):
+                row = inp["data"][k]
+                tot += Fr(row) if inp["shape"] == "1d" else Fr(row[0]) if len(row) == 1 else Fr(row[tg.index(i)]) if len(row) == len(tg) else 0
+        return tot
+    E, M = 0, Fr(0)
+    def see(v, mag=None):
+        nonlocal E, M
+        d = v.denominator
+        if d & (d - 1):
+            raise ValueError
+        E = max(E, d.bit_length() - 1); M = max(M, abs(v) if mag is None else mag)
+    def f(k, y):
+        out = []
+        for i in range(nn):
+            terms = [u(i, k)] + [W[i][j] * y[j] for j in range(nn)]
+            v = sum(terms); see(v, sum(abs(t) for t in terms) + 64); out.append(v)
+        return out
+    try:
+        for k in range(steps):
+            r1 = f(k, x)
+            if case["solver"] == "euler":
+                x = [a + dt * r for a, r in zip(x, r1)]
+            else:
+                y0 = [a + dt * r for a, r in zip(x, r1)]
+                for a in y0:
+                    see(a, 2 * abs(a) + 1)
+                r2 = f(k, y0)
+                for p_, q_ in zip(r1, r2):
+                    see(dt / 2 * (p_ + q_), abs(p_) + abs(q_))
+                x = [a + dt / 2 * (p_ + q_) for a, p_, q_ in zip(x, r1, r2)]
+            for a in x:
+                see(a, 2 * abs(a) + 1)
+    except ValueError:
+        return False
+    return M * 2 ** E < 2 ** 50
+
+def make_exact(case):
+    if exact_ok(case):
+        return case
+    dt = Fr(case["dt"])
+    case["W"] = [[str(Fr(w) / dt) for w in r] for r in case["W"]]       # dt*w integer: no new bits per step
+    if exact_ok(case):
+        return case
+    case["W"] = [["0"] * case["nn"] for _ in range(case["nn"])]
+    return case
+
 def gen_fixed(rng):
     nn = rng.choice([1, 2, 2, 3, 3])
     dt = Fr(1, 2 ** rng.choice([0, 1, 2, 3]))
@@ -133,7 +189,7 @@ def gen_fixed(rng):
                 x0=[str(v) for v in x0], W=[[str(v) for v in r] for r in W], names=names,
                 inputs=gen_inputs(rng, nn, vectorize, max(1, steps + extra)))
     dedup_targets(case)
-    return case
+    return make_exact(case)
 
 def gen_adaptive(rng):
     nn = rng.choice([1, 2, 2, 3])
@@ -191,7 +247,7 @@ Definition g_depth (p : tcase * outcome) := depth_ok (cdepth (fst p)) (cin (fst 
 (* forms the implementation accepts, arrays long enough, >= 2 rows: outside, only model = code is demanded *)
 Definition g_scope (p : tcase * outcome) :=
   adaptive (fst p) || (forallb (input_ok (vec (fst p)) (rnd (cT (fst p) / cdt (fst p)))) (cin (fst p)) &&
-                       rows_fit (cT (fst p)) (cdt (fst p)) (cdt (fst p)) && frame_ok (cT (fst p)) (cdt (fst p)) (length (cx0 (fst p)))).
+                       rows_fit (cT (fst p)) (cdt (fst p)) (cdt (fst p)) && frame_ok (cT (fst p)) (cdt (fst p))).
 """
 
 def coq_outcome(r):
@@ -253,7 +309,7 @@ def shrink(ctx, case):
             return
         budget -= 1
         try:
-            if fails(ctx, cand, tag)[0]:
+            if (cand["kind"] != "fixed" or exact_ok(cand)) and fails(ctx, cand, tag)[0]:
                 best = cand
         except Exception:
             pass
